@@ -113,7 +113,9 @@ def api_census(ctx):
     spec/pinned_api.json: what was added is an entry point no driver knows (reported as drift, never a verdict)."""
     now = {}
     for pkg in ('./util', './lint', '.'):
-        rc, out = sh(['go', 'doc', '-short', pkg], cwd=os.path.join(REPO, 'v3'), timeout=300)
+        env = dict(GOENV)
+        env['GOFLAGS'] = '-mod=readonly'      # (go doc under -mod=mod appends to go.sum: nothing here may write to /repo)
+        rc, out = sh(['go', 'doc', '-short', pkg], cwd=os.path.join(REPO, 'v3'), timeout=300, env=env)
         now[pkg] = sorted({re.sub(r'\s+', ' ', l.strip()) for l in out.splitlines() if re.match(r'\s*(func|type|var|const) ', l)})
     pin_path = os.path.join(VERIF, 'spec', 'pinned_api.json')
     if os.environ.get('VERIF_PIN_API'):
